@@ -514,7 +514,8 @@ PROPS["C20"] = {
     "rule": ("The generated workloads of the other checks, re-run in test binaries built with -race: broker herds at timeout boundaries, "
              "wiring histories and counter bursts on the fake clock (events tied at one instant run genuinely in parallel), a real-time "
              "load of 24 concurrent proxy/client/answer triples per round through the real HTTP handlers with metrics readers in parallel, "
-             "concurrent log-scrubber writers, redial/queue adapter stress, multi-session carrier churn through the real server (server, "
+             "concurrent log-scrubber writers, redial/queue adapter stress, the real ClientMap with 2-6 goroutines looking queues up while "
+             "its sweeper wakes every 1-20 ms and expires one-shot clients, multi-session carrier churn through the real server (server, "
              "QueuePacketConn, ClientMap, websocketconn), the client's Peers machine and failing rendezvous with real pion, and proxy session "
              "sequences with real pion, the proxy's periodic summary logger fed by 1-12 session goroutines through the shared event "
              "dispatcher while its timer ticks every millisecond (also judged by conservation: the summary lines account for exactly the sessions that ended); thorough tier: the whole-system unit with the broker and proxy binaries built with -race (their own "
@@ -531,6 +532,7 @@ PROPS["C20"] = {
         R("c20_broker_concurrent", "inpkg", "broker", "^TestVerifC14Concurrent$", (12, 120), shards=(2, 4)),
         R("c20_safelog", "ext", "c07", "^TestVerifC07Concurrent$", (100, 1000)),
         R("c20_adapters", "ext", "c17", "^TestVerifC17(Redial|Queue)$", (100, 1000)),
+        R("c20_clientmap", "inpkg", "common/turbotunnel", "^TestVerifC(20ClientMap|17ClientMapRealTime)$", (1, 1), shards=(2, 4)),
         R("c20_server", "ext", "c05", "^TestVerifC05Sessions$", (12, 150), shards=(3, 6)),
         R("c20_ringmap", "inpkg", "server/lib", "^TestVerifC18RingMapConcurrent$", (60, 600)),
         R("c20_peers", "inpkg", "client/lib", "^TestVerifC15(Peers|Rendezvous)$", (40, 400)),
